@@ -2,6 +2,7 @@ import GrmVerif.Model.AnalysesRef
 import GrmVerif.Model.FirstsFollowsImpl
 import GrmVerif.Model.CostsImpl
 import GrmVerif.Lemmas.MinSentenceTerm
+import GrmVerif.Lemmas.MinSentencesTerm
 import GrmVerif.Model.Recog
 import GrmVerif.Drive.Util
 /-!
@@ -11,7 +12,10 @@ Reply: `S eps … first … follow … path …` from the verified reference ana
 with the implementation's `I` line), `Mf eps … first … follow …` from the faithful models of
 `YaccFirsts::new` / `YaccFollows::new` (`Model/FirstsFollowsImpl.lean`, run with the fuel that
 `firsts_impl_exact` / `follows_impl_exact` prove sufficient; compared with the implementation's `If`
-line), and `V` verdicts on the cost answers. Every `V fail` is backed by a
+line), `Mc path … mincost … maxcost … minsent … minsents …` from the faithful models of `has_path`,
+`rule_min_costs`, `rule_max_costs`, `min_sentence` and `min_sentences` (`Model/CostsImpl.lean`,
+`Model/MinSentencesImpl.lean`; compared with the implementation's `Ic` line), and `V` verdicts on the cost
+answers. Every `V fail` is backed by a
 verified certificate (`min_cost_exact`, `max_cost_upper_bound`, `recog_sound`); only the *acceptance*
 of a `None` maximal cost rests on the unproved growth analysis below.
 -/
@@ -157,7 +161,8 @@ def showOutcomeBit : Impl.Outcome Bool → String
 def showSent (w : List Nat) : String := "[" ++ ",".intercalate (w.map toString) ++ "]"
 
 /-- the `Mc` line: `has_path` bits, `rule_min_costs`, `rule_max_costs` (as `max_sentence_cost` reports
-them) and `min_sentence` of every rule as computed by the models of `Model/CostsImpl.lean`, each run with
+them), `min_sentence` and `min_sentences` of every rule as computed by the models of `Model/CostsImpl.lean`
+and `Model/MinSentencesImpl.lean`, each run with
 the fuel the theorems of `Props/C17.lean` prove sufficient; `dbg = true` because the harness builds
 cfgrammar with its debug assertions on -/
 def costModelLine (G : Grammar) (tc : List Nat) : String :=
@@ -188,7 +193,21 @@ def costModelLine (G : Grammar) (tc : List Nat) : String :=
         if mc.getD r 0 = Impl.U16MAX then "U" else sentOf (some mc) r))
     | .panic => " ".intercalate (rules.map (sentOf none))
     | .fuelOut => " ".intercalate (rules.map (fun _ => "H"))
-  s!"Mc path {path} mincost {minc} maxcost {maxc} minsent {sent}"
+  -- `min_sentences_impl_terminates_iff`: when `tightInfAll` holds the model of `min_sentences` runs out of
+  -- every recursion depth (`H` without running it), otherwise the depth `minSentencesFuel` suffices; the
+  -- harness records the first 40 sentences of the returned vector and the count capped at 40
+  let sentsOf (mc : Option (List Nat)) (r : Nat) : String :=
+    if mc.isSome && Impl.tightInfAll G tc mc r then "H" else
+    match Impl.minSentencesWith G tc mc (Impl.minSentencesFuel G) r with
+    | .done ws => toString (min ws.length 40) ++ ":" ++ String.join ((ws.take 40).map showSent)
+    | .panic => "P"
+    | .fuelOut => "H"
+  let sents := match mcO with
+    | .done mc => " ".intercalate (rules.map (fun r =>
+        if mc.getD r 0 = Impl.U16MAX then "U" else sentsOf (some mc) r))
+    | .panic => " ".intercalate (rules.map (sentsOf none))
+    | .fuelOut => " ".intercalate (rules.map (fun _ => "H"))
+  s!"Mc path {path} mincost {minc} maxcost {maxc} minsent {sent} minsents {sents}"
 
 def handle (args : List Nat) : String :=
   match parseGrammar args with
